@@ -300,6 +300,9 @@ func (g *Gen) genTx(fam string) *world.TxJSON {
 		if len(g.W.U.DNS) > 0 && g.R.Intn(4) != 0 {
 			caller = g.W.U.DNS[g.R.Intn(len(g.W.U.DNS))]
 		}
+		if g.W.Cfg.HostReusesDNSMap && g.R.Intn(3) == 0 {
+			caller = g.W.U.Users[0] // the address the host later put into its own copy of the map
+		}
 		args := [][]byte{g.randBytes(10)}
 		if g.R.Intn(12) == 0 {
 			args = append(args, []byte{1})
@@ -537,11 +540,25 @@ func (g *Gen) genSC(op string) *world.SCAction {
 		if len(a.Roles) == 0 {
 			a.Roles = []string{all[g.R.Intn(len(all))]}
 		}
+		if op == "setrole" && g.R.Intn(6) == 0 {
+			// role names this library does not know (later protocol versions define more, e.g.
+			// ESDTRoleNFTCreateMultiShard, ESDTTransferRole): names that extend or truncate a known
+			// one. A role list is a list of opaque names; holding one of these authorises nothing here
+			base := all[g.R.Intn(len(all))]
+			extra := []string{base + "MultiShard", base + "2", base[:len(base)-1], "ESDTTransferRole", base + "\x00"}[g.R.Intn(5)]
+			a.Roles = append(a.Roles, extra)
+			if g.R.Intn(2) == 0 {
+				a.Roles = []string{extra} // the unknown name alone: its holder holds no known role
+			}
+		}
 		if op == "unsetrole" {
 			// prefer accounts that hold something
 			for _, addr := range sortedKeysRoles(t.Roles) {
 				if len(t.Roles[addr]) > 0 && g.R.Intn(2) == 0 {
 					a.Addr = hx([]byte(addr))
+					if held := sortedKeysBool(t.Roles[addr]); g.R.Intn(4) == 0 {
+						a.Roles = []string{held[g.R.Intn(len(held))]}
+					}
 				}
 			}
 		}
@@ -592,7 +609,7 @@ func (g *Gen) genSC(op string) *world.SCAction {
 		}
 		a.Addr2 = hx(caller)
 		a.Addr = hx(g.anyAccount())
-		a.CallType = []int{0, 0, 0, 1, 2, 3}[g.R.Intn(6)]
+		a.CallType = []int{0, 0, 0, 1, 2, 3, 0, 0, 0, 1, 2, 3, 4, 17}[g.R.Intn(14)]
 		a.ReturnErr = g.R.Intn(5) == 0
 		a.Amount = big.NewInt(int64(1 + g.R.Intn(50))).String()
 		hs := g.Holdings()
